@@ -74,14 +74,24 @@ Fixpoint subtrees (t : tree) : list tree :=
   | T _ _ fs => t :: flat_map (fun p => flat_map subtrees (snd p)) fs
   end.
 
-(* Shape the Python parser guarantees (checked on every real tree by the harness):
-   Name nodes have exactly one child, ctx = Load; Call nodes have exactly the
-   fields func, args, keywords with a single func child. *)
-Fixpoint wfb (t : tree) : bool :=
+(* Shape the Python parser guarantees in mode='eval' (checked on every real tree by the
+   harness): a Name has exactly one child, its ctx, which is Load except in assignment-target
+   position (walrus target, comprehension target, and tuples/lists/starred inside those);
+   a Call has exactly the fields func, args, keywords with a single func child.
+   st = "this node is in assignment-target position". *)
+Definition child_st (kind f : string) (st : bool) : bool :=
+  (String.eqb kind "NamedExpr" && String.eqb f "target")
+  || (String.eqb kind "comprehension" && String.eqb f "target")
+  || (st && (String.eqb kind "Tuple" || String.eqb kind "List" || String.eqb kind "Starred")).
+
+Fixpoint wfb (st : bool) (t : tree) : bool :=
   match t with
   | T kind _ fs =>
       (if String.eqb kind "Name"
-       then match fs with [(f, [T k _ []])] => String.eqb f "ctx" && String.eqb k "Load" | _ => false end
+       then match fs with
+            | [(f, [T k _ []])] => String.eqb f "ctx" && (String.eqb k "Load" || (st && String.eqb k "Store"))
+            | _ => false
+            end
        else true)
       && (if String.eqb kind "Call"
           then match fs with
@@ -90,7 +100,7 @@ Fixpoint wfb (t : tree) : bool :=
                | _ => false
                end
           else true)
-      && forallb (fun p => forallb wfb (snd p)) fs
+      && forallb (fun p => forallb (wfb (child_st kind (fst p) st)) (snd p)) fs
   end.
 
 (* Name resolution of eval(code, env, locals): locals, then globals (env), then builtins. *)
@@ -107,6 +117,7 @@ Definition policy_sound (tb : Tables) : bool :=
   mem "Name" (allowed_nodes tb) && mem "Call" (allowed_nodes tb) && mem "Load" (allowed_nodes tb)
   && name_checked tb && call_guarded tb && generic_checked tb
   && mem "args" (call_visited tb)
+  && negb (mem "NamedExpr" (allowed_nodes tb)) && negb (mem "comprehension" (allowed_nodes tb))
   && match kw_policy tb with
      | KwIgnored => false
      | KwRejected => true
